@@ -241,14 +241,26 @@ VWork(o, sh, ld, kuk, inc) ==
           IN PAdd(const, PScale(inc, incr))]
 
 (* ------------------------------ linear static solution ------------------ *)
-(* rows of K_uu c_u = f_u that fail: |K c - f|_a > 2^-t (SUM_b |K_ab||c_b| + |f_a|)     (observed numbers)  *)
+(* rows of K_uu c_u = f_u that fail (observed numbers).  A row passes if its residual is within 2^-t of the row's own
+   term scale SUM_b |K_ab||c_b| + |f_a|, or within 2^-tn of the norm scale |K|_inf |c|_inf + |f|_inf of the system:
+   the second clause is the normwise backward stability that a direct solver (SuperLU with partial pivoting, no
+   refinement) guarantees; K_uu mixes entries of order 1e11 (edge penalties) with entries of order 1e2, so the
+   row-wise quotient alone is not guaranteed (measured: up to 9.4e-10 for clpt_donnell_bc3 on a cone, while the
+   normwise quotient there is 1.4e-17). *)
 AbsSeq(s) == [k \in 1..Len(s) |-> RAbs(s[k])]
-StaticBadRows(K, c, f, t, dev) ==
-    LET ac == AbsSeq(c)
+RECURSIVE RMaxFrom(_,_)
+RMaxFrom(s, k) == IF k > Len(s) THEN RZero ELSE RMax(s[k], RMaxFrom(s, k+1))
+RMaxOf(s) == RMaxFrom(s, 1)
+StaticBadRows(K, c, f, t, tn, dev) ==
+    LET ac == Ev(AbsSeq(c))
+        ones == Ev([b \in 1..Len(c) |-> ROne])
+        N == RAdd(RMul(RMaxOf([a \in 1..Len(f) |-> RDot(AbsSeq(K[a]), ones)]), RMaxOf(ac)), RMaxOf(AbsSeq(f)))
+        tolN == RMul(N, RTwoPow(-tn))
     IN { a \in 1..Len(f) :
            LET r == RSub(RDot(K[a], c), f[a])
                S == RAdd(RDot(AbsSeq(K[a]), ac), RAbs(f[a]))
            IN /\ ~RLe(RAbs(r), RMul(S, RTwoPow(-t)))
+              /\ ~RLe(RAbs(r), tolN)
               /\ ~(KF_Null \in dev /\ RIsZero(c[a]) /\ \A b \in 1..Len(c) : RIsZero(K[a][b])) }
 
 (* ------------------------------ state machine --------------------------- *)
